@@ -52,7 +52,11 @@ def select(container, ck, ln, seq, tier, rnd):
         if ck in ("hba_stack_mlock", "hb_rolocked"):
             return len(seq) <= 1
         return len(seq) == 0
-    return True
+    # thorough: depth<=2 everywhere; depth 3 at lengths 3 (sub-page) and 5 (page+1) for the heap-bytes constructors, whose
+    # resize / clone paths reallocate (the full depth-3 product is ~6000 programs)
+    if len(seq) <= 2:
+        return True
+    return ln in (3, 5) and ck in ("hb_locked", "hb_rolocked")
 
 
 def suites(tier, seed):
